@@ -1,7 +1,10 @@
 use std::{fs::File, mem, sync::Arc};
 
 use log::{debug, trace};
+#[cfg(not(feature = "verif_hooks"))]
 use parking_lot::{Mutex, RwLock, RwLockReadGuard, RwLockWriteGuard};
+#[cfg(feature = "verif_hooks")]
+use crate::verif::{Mutex, RwLock, RwLockReadGuard, RwLockWriteGuard};
 
 use crate::{Database, Error, Reader, RegionMetadata, Result, WeakDatabase};
 
